@@ -28,7 +28,7 @@ RULE = ("generated: variant in {XX without stored server key, IK with the right 
         "with the handshake reply, 0-4 stanzas in each direction afterwards (optionally with one attempt to send a stanza that is just too large for a frame in between), a schedule of up to 200 choices for the interleaving of "
         "handshake worker and network thread, a history prefix of 0-2 attempts cut off before / during (after the client hello) / "
         "after the handshake (closed by the peer, or closed on request of the layer above from inside the delivery of a stanza that shares "
-        "its read with the beginning of a further frame) followed by a reconnect, or an attempt whose server reply fails authentication with 1-3 further frames behind it in the same read, and optionally a corrupted server reply for the login under test. Non-trivial = a handshake message "
+        "its read with the beginning of a further frame) followed by a reconnect, or an attempt whose server reply fails authentication with 1-3 further frames behind it in the same read, the attempts of the prefix optionally made with another passive flag / push name than the login under test; optionally a server reply that is not the authentic one for the login under test (a flipped, truncated or emptied field, a handshake message without server hello, garbage); optionally a server that answers the client's last handshake message at once and a layer above that fails on the n-th stanza arriving with the handshake (complete one-preemption sweeps for both). Non-trivial = a handshake message "
         "split into >= 2 chunks, or a frame coalesced with the handshake reply, or a reconnect in the history. "
         "Distinct = distinct canonical JSON.")
 ASSUMPTIONS = [
